@@ -262,7 +262,12 @@ def _cases(draw, large=False):
     fwd = [r for r in dict.fromkeys(cand) if R.is_canonical_inversion(r) and not R.inverted(r)]
     inv = {r: R.invert(r) for r in fwd if R.inverted(R.invert(r)) and R.is_canonical_inversion(R.invert(r))}
     concepts = C12_CONCEPTS if spec['name'] != 'custom' else trees.CONCEPTS + [r[1] for r in table['reifications']]
-    if draw(st.integers(0, 5)) == 0:
+    FAV = [['dereify_edges', 'reify_edges'], ['dereify_edges', 'reify_edges', 'dereify_edges'], ['reify_edges', 'dereify_edges', 'reify_edges'],
+           ['dereify_edges', 'indicate_branches'], ['reify_edges', 'reify_attributes', 'dereify_edges'], ['dereify_edges', 'reify_attributes', 'reify_edges']]
+    c2 = draw(st.integers(0, 7))
+    if c2 <= 1:
+        prog = FAV[draw(st.integers(0, len(FAV) - 1))]
+    elif c2 == 2:
         prog = [pick(draw, OPS) for _ in range(draw(st.integers(4, 5)))]
         while prog.count('indicate_branches') > 1:
             prog.remove('indicate_branches')
@@ -273,7 +278,7 @@ def _cases(draw, large=False):
         return {'src': 'built', 'g': g, 'model': spec, 'program': prog}
     j = draw(trees.wf_trees(spec, max_nodes=30 if large else 6, role_pool=(fwd, inv), concepts=concepts, emptyconcept=False, wide=8 if large else 3))
     if table['reifications'] and draw(st.booleans()):
-        j = trees.reify_in_tree(draw, j, table, prob=(1, 3))     # collapsible reified nodes written in the text
+        j = trees.reify_in_tree(draw, j, table, prob=(1, 3) if draw(st.booleans()) else (2, 3), tail=draw(st.integers(0, 2)) == 0)     # collapsible reified nodes written in the text
     case = {'src': 'tree', 'tree': j, 'model': spec, 'program': prog, 'strip': draw(st.integers(0, 3)) == 0}
     if draw(st.integers(0, 3)) == 0:
         vs = interp.node_vars(interp.to_node(j))
@@ -286,4 +291,4 @@ def _cases(draw, large=False):
 
 
 def stages(tier):
-    return [Hyp('programs', _cases, 5000, 200000), Hyp('programs-large', lambda: _cases(large=True), 200, 10000)]
+    return [Hyp('programs', _cases, 8000, 200000), Hyp('programs-large', lambda: _cases(large=True), 200, 10000)]
